@@ -193,6 +193,35 @@ func asOverlappingEscalations(rng *rand.Rand) (*asScenario, []asStep) {
 	return sc, steps
 }
 
+// asZombieSubscriber: an actor that holds subscriptions fails, its restart fails (it becomes a zombie) and it is
+// then killed or stopped with the system: the stream must not keep an entry for it.
+func asZombieSubscriber(rng *rand.Rand) (*asScenario, []asStep) {
+	par := map[string]string{"t": "root", "a": "t", "b": "t", "c": "a"}
+	sc := &asScenario{Parent: par, Names: []string{"a", "b", "c", "t"}, Cfg: asConfig{Decision: map[string]string{}, Strategy: map[string]string{}}}
+	for _, n := range sc.Names {
+		sc.Cfg.Decision[n] = []string{"restart", "grestart"}[rng.Intn(2)]
+		sc.Cfg.Strategy[n] = []string{"ofo", "ofa"}[rng.Intn(2)]
+	}
+	victim := []string{"a", "c"}[rng.Intn(2)]
+	sc.Cfg.HookFail = []string{victim, []string{"prerestart", "restarted", "prelaunch"}[rng.Intn(3)]}
+	if rng.Intn(2) == 0 {
+		sc.Cfg.HookFailMode = "panic"
+	}
+	steps := []asStep{{A: "spawn", X: "t"}, {A: "tell", X: victim, Op: "sub", Arg: []string{"A", "B"}[rng.Intn(2)]}, {A: "tell", X: "b", Op: "sub", Arg: "A"}}
+	if rng.Intn(2) == 0 {
+		steps = append(steps, asStep{A: "tell", X: victim, Op: "sub", Arg: "B"})
+	}
+	steps = append(steps, asStep{A: "tell", X: victim, Op: "fail"})
+	for i := 0; i < 1+rng.Intn(3); i++ {
+		steps = append(steps, asStep{A: "tell", X: "b", Op: "pub", Arg: []string{"A", "B"}[rng.Intn(2)]})
+	}
+	if rng.Intn(2) == 0 {
+		steps = append(steps, asStep{A: "kill", X: victim, Poison: rng.Intn(2) == 0})
+		steps = append(steps, asStep{A: "tell", X: "b", Op: "pub", Arg: "A"})
+	}
+	return sc, steps
+}
+
 func asCheck(c *core.Ctx, plan asPlan) {
 	dir, err := c.SpecDir("actorsys")
 	if err != nil {
@@ -369,7 +398,7 @@ func init() {
 			rule: base + "Judged by UnstuckMon."})
 	})
 	register("C19", func(c *core.Ctx) {
-		asCheck(c, asPlan{prop: "C19", monitors: []string{"StreamMon"}, mc: t3, gen: g3, ops: asOpsStream,
+		asCheck(c, asPlan{prop: "C19", monitors: []string{"StreamMon"}, mc: t3, gen: g3, ops: asOpsStream, directed: asZombieSubscriber,
 			rule: base + "Judged by StreamMon."})
 	})
 	register("C08", func(c *core.Ctx) {
